@@ -31,9 +31,14 @@ pub enum Dev {
     ResubmittedApprovalAfterDelivery,
     /// delivered, then an approval for the same id with other content is submitted, then that content is delivered
     ReapprovedOtherContentAfterDelivery,
+    /// approved for (chain + SEP + "p", id) but delivered as (chain, "p" + SEP + id): the same characters,
+    /// split differently between chain and id
+    ApprovedSeparatorShift(u8),
 }
 
-const DEVS: [Dev; 11] = [
+const SEPS: [&str; 8] = ["", "_", ":", "-", "/", "|", ".", " "];
+
+const DEVS: [Dev; 19] = [
     Dev::None,
     Dev::NeverApproved,
     Dev::ApprovedForOtherApp,
@@ -45,6 +50,14 @@ const DEVS: [Dev; 11] = [
     Dev::AlsoApprovedForOtherApp,
     Dev::ResubmittedApprovalAfterDelivery,
     Dev::ReapprovedOtherContentAfterDelivery,
+    Dev::ApprovedSeparatorShift(0),
+    Dev::ApprovedSeparatorShift(1),
+    Dev::ApprovedSeparatorShift(2),
+    Dev::ApprovedSeparatorShift(3),
+    Dev::ApprovedSeparatorShift(4),
+    Dev::ApprovedSeparatorShift(5),
+    Dev::ApprovedSeparatorShift(6),
+    Dev::ApprovedSeparatorShift(7),
 ];
 
 #[derive(Clone, Debug, Serialize, Deserialize)]
@@ -64,10 +77,10 @@ impl Property for C16 {
         "C16"
     }
     fn rule(&self) -> &'static str {
-        "proptest single cases: app (the shipped example / a minimal harness app that calls the interface's validate_message helper and aborts on error) x delivery (chain, id, source address from small pools incl. empty strings; payload 0..600 bytes) x at most one deviation (never approved; approved for another app / payload / source address / id / chain; delivered twice; additionally approved for the other app; approval re-submitted, or the id re-approved with other content, after delivery). All 2x11 app x deviation combinations are also enumerated as fixed cases. Oracle: the app's effect (its executed event / counter) and the gateway's transition to executed happen iff the gateway held a matching unexecuted approval naming this app; otherwise the delivery fails, nothing is emitted and the ledger snapshot is identical. non-trivial = a deviation is present; distinct by Debug hash"
+        "proptest single cases: app (the shipped example / a minimal harness app that calls the interface's validate_message helper and aborts on error) x delivery (chain, id, source address from small pools incl. empty strings; payload 0..600 bytes) x at most one deviation (never approved; approved for another app / payload / source address / id / chain; delivered twice; additionally approved for the other app; approval re-submitted, or the id re-approved with other content, after delivery; approved under another split of the same characters between chain and id, for 8 separators). All 2x19 app x deviation combinations are also enumerated as fixed cases. Oracle: the app's effect (its executed event / counter) and the gateway's transition to executed happen iff the gateway held a matching unexecuted approval naming this app; otherwise the delivery fails, nothing is emitted and the ledger snapshot is identical. non-trivial = a deviation is present; distinct by Debug hash"
     }
     fn fixed_is_exhaustive(&self) -> Option<&'static str> {
-        Some("app x deviation matrix (2 x 11) enumerated completely with one fixed delivery; deliveries sampled")
+        Some("app x deviation matrix (2 x 19) enumerated completely with one fixed delivery; deliveries sampled")
     }
     fn cases(&self, tier: Tier) -> u64 {
         tier.pick(20000, 200000)
@@ -121,6 +134,11 @@ impl Property for C16 {
             Dev::ApprovedOtherSourceAddress => vec![mk(&app, chain, id, &format!("{}x", src), &payload)],
             Dev::ApprovedOtherId => vec![mk(&app, chain, &format!("{}x", id), src, &payload)],
             Dev::ApprovedOtherChain => vec![mk(&app, &format!("{}x", chain), id, src, &payload)],
+            Dev::ApprovedSeparatorShift(k) => {
+                let sep = SEPS[k as usize % SEPS.len()];
+                // delivered: (chain, "p" + sep + id)  -- see `deliver` below
+                vec![mk(&app, &format!("{}{}p", chain, sep), id, src, &payload)]
+            }
             Dev::AlsoApprovedForOtherApp => vec![mk(&app, chain, id, src, &payload), mk(&other_app, chain, &format!("{}y", id), src, &payload)],
         };
         if !approvals.is_empty() {
@@ -133,6 +151,11 @@ impl Property for C16 {
         cx.label(&format!("{:?}", case.dev));
         cx.label(if case.example_app { "example_app" } else { "mini_app" });
 
+        let shifted_id: String = match case.dev {
+            Dev::ApprovedSeparatorShift(k) => format!("p{}{}", SEPS[k as usize % SEPS.len()], id),
+            _ => id.to_string(),
+        };
+        let id: &str = &shifted_id;
         let client = AxelarExecutableClient::new(&env, &app);
         env.set_auths(&[]);
         let deliver = || {
